@@ -469,9 +469,9 @@ func scenarios(tier string) []scen {
 	s = append(s, scen{name: "openrgb connected, the process stalls for 6 s at some point", events: two[:1], rgb: true, stall: true, pace: 1, dBound: -1},
 		scen{name: "no-openrgb, the process stalls for 6 s at some point", events: two[:1], stall: true, pace: 1, dBound: -1})
 	s = append(s, scen{name: "openrgb connected but no controller matches the device", events: two[:1], rgb: true, noMatch: true, pace: 1, dBound: -1})
-	s = append(s, scen{name: "two devices playing the same channel and pitch", events: []*input.InputEvent{key("KEY_A", 1), key("KEY_A", 0)}, two: true, sameNote: true, dBound: -1, noEarlyTimers: true})
-	// the 129-message panic burst through a slow (capacity 1) output, then the device goes away
-	s = append(s, scen{name: "no-openrgb, panic through a slow output, then disconnect", events: []*input.InputEvent{key("KEY_ESC", 1)}, dBound: -1})
+	s = append(s, scen{name: "two devices playing the same channel and pitch", events: []*input.InputEvent{key("KEY_A", 1), key("KEY_A", 0)}, two: true, sameNote: true, dBound: -2, noEarlyTimers: true})
+	// the 129-message panic burst through a slow output (capacity 64: the burst blocks twice), then the device goes away
+	s = append(s, scen{name: "no-openrgb, panic through a slow output, then disconnect", events: []*input.InputEvent{key("KEY_ESC", 1)}, dBound: -2, outCap: 64})
 	// a bidirectional axis swung from one end stop to the other and back to rest through the slow output
 	s = append(s, scen{name: "no-openrgb, bidirectional axis through a slow output", events: []*input.InputEvent{axis(127), axis(-128), axis(0)}, axisRest: true})
 	s = append(s, scen{name: "no-openrgb, pitch-bend axis through a slow output", events: []*input.InputEvent{axisY(127), axisY(-128), axisY(0)}, axisRest: true})
